@@ -474,8 +474,13 @@ var midLits = []string{"/", "/x", "-", ".", "/y/", "-z", "/x/", "/v1\x00", "/-"}
 func genToks(t *rapid.T) []Tok {
 	toks := []Tok{{Kind: "lit", Lit: rapid.SampledFrom(firstLits).Draw(t, "l0")}}
 	np := rapid.IntRange(1, 3).Draw(t, "np")
+	adjacent := false
 	for i := 0; i < np; i++ {
 		k := rapid.SampledFrom([]string{"named", "named", "named", "opt", "star", "plus"}).Draw(t, "kind")
+		if adjacent {
+			k = rapid.SampledFrom([]string{"named", "named", "opt"}).Draw(t, "kindadj")
+		}
+		adjacent = false
 		p := Tok{Kind: k, Name: fmt.Sprintf("p%d", i)}
 		if k == "named" || k == "opt" {
 			nc := rapid.IntRange(0, 3).Draw(t, "nc")
@@ -484,6 +489,10 @@ func genToks(t *rapid.T) []Tok {
 			}
 		}
 		toks = append(toks, p)
+		if i < np-1 && (k == "named" || k == "opt") && rapid.IntRange(0, 7).Draw(t, "adjacent") == 0 {
+			adjacent = true
+			continue // the next parameter follows directly ("/:a:b"): every parameter in front of another one takes one character
+		}
 		if i < np-1 || rapid.Bool().Draw(t, "tail") {
 			l := rapid.SampledFrom(midLits).Draw(t, "lit")
 			l = strings.ReplaceAll(l, "\x00", "")
